@@ -119,7 +119,11 @@ func runReplSession(c *Case) Verdict {
 			v.Note = fmt.Sprintf("session %q: the loop printed [%s] where the specification prescribes [%s]", c.Lines, pattern(have), pattern(want))
 			return v
 		}
-		v.Verdict = "abstain" // judged under C16
+		// C19: the forms of the session were complete expressions typed one by one (possibly over several lines,
+		// with comments): the loop evaluating fewer / more / other things than the same text read as a whole does
+		// is a change of meaning by the route of delivery
+		v.Verdict, v.Key = "mismatch", "repl:session-differs"
+		v.Note = fmt.Sprintf("session %q: the loop printed [%s] where the specification prescribes [%s]", c.Lines, pattern(have), pattern(want))
 		return v
 	}
 	if propFlag == "C16" {
